@@ -43,7 +43,7 @@ fn strategy(t: Tier) -> BoxedStrategy<LinCase> {
 }
 
 fn parts() -> Vec<Box<dyn PartDyn>> {
-    vec![Box::new(GenPart { name: "linearity", quick: 15_000, thorough: 400_000, shrink_iters: 600, strat: strategy, check })]
+    vec![Box::new(GenPart { name: "linearity", quick: 40_000, thorough: 400_000, shrink_iters: 600, strat: strategy, check })]
 }
 
 fn xor_sets(a: &[Vec<u8>], b: &[Vec<u8>]) -> Vec<Vec<u8>> {
